@@ -14,6 +14,8 @@ structure ExObs where
   lastState : String := ""
   verdict : String := ""
   reason : String := ""
+  callWire : Bytes := []       -- single-call API: everything `write` emitted (head, then body)
+  callDone : Bool := false     -- single-call API: the body was read to its end, or there is none
   fail : Option String := none
 
 /-- index just after the first CRLF CRLF (the whole input if there is none) -/
@@ -62,6 +64,28 @@ def observe (c : TCase) : ExObs :=
       { s with head := wb.take hl, bodyWire := wb.drop hl, payload := (unhex (t.op.getD 1 "-")).take off,
                chunked := containsBytes (wb.take hl) "transfer-encoding: chunked".toUTF8.toList,
                consumed := (get "consumed").toNat!, resp := get "head", respBody := unhex (get "body") }
+    -- the single-call API: the same observations under its own op names
+    | "cwrite", ["bytes", _, o] => if o.startsWith "#" then { s with fail := some "needfull" } else { s with callWire := s.callWire ++ unhex o }
+    | "cwrite", ["fault", "api:OutputOverflow"] => s
+    | "cbwrite", ["fault", "api:OutputOverflow"] => s
+    | "cbwrite", ["bytes", n, o] =>
+      (match bwriteInput t.op with
+       | some (input, _) =>
+         if o.startsWith "#" then { s with fail := some "needfull" }
+         else { s with payload := s.payload ++ input.take n.toNat!, callWire := s.callWire ++ unhex o }
+       | none => s)
+    | "cinto", "state" :: _ =>
+      let hl := headEnd s.callWire
+      { s with head := s.callWire.take hl, bodyWire := s.callWire.drop hl,
+               chunked := containsBytes (s.callWire.take hl) "transfer-encoding: chunked".toUTF8.toList }
+    | "cresp", "resp" :: n :: rest =>
+      let s := { s with consumed := s.consumed + n.toNat! }
+      if rest == ["none"] then s else { s with resp := " ".intercalate rest }
+    | "cbody", ["none"] => { s with callDone := true }
+    | "cread", ["bytes", n, o] =>
+      if o.startsWith "#" then { s with fail := some "needfull" }
+      else { s with consumed := s.consumed + n.toNat!, respBody := s.respBody ++ unhex o }
+    | "cended", ["bool", b] => { s with callDone := b == "true" }
     | "close?", ["bool", b] => { s with verdict := b }
     | "reason", "str" :: ws => { s with reason := " ".intercalate ws }
     | _, "fault" :: e :: _ => { s with fail := some s!"the exchange failed: {t.raw.take 120}" }
@@ -78,7 +102,10 @@ def oracleC01Case (c : TCase) : Except Verdict String :=
   | some "needfull" => .error .needFull
   | some w => .error (.fail w)
   | none =>
-    if o.lastState != "cleanup" then .error (.fail s!"the exchange did not reach the terminal state (ended in {o.lastState})") else
+    let isCall := c.metas.any (· == "meta callapi")
+    let closeDelim := o.resp != "" && isCall && !o.callDone && o.lastState == "callRecvBody"   -- judged below by the consumed count
+    if !isCall && o.lastState != "cleanup" then .error (.fail s!"the exchange did not reach the terminal state (ended in {o.lastState})") else
+    if isCall && !o.callDone && !closeDelim then .error (.fail s!"the single-call exchange was not completed (ended in {o.lastState})") else
     let msglen := ((metaVal c "msglen").bind (·.head?)).bind (·.toNat?) |>.getD 0
     let payload := unhex (((metaVal c "payload").bind (·.head?)).getD "-")
     if o.consumed != msglen then .error (.fail s!"server bytes consumed {o.consumed}, the response message(s) of this exchange are {msglen} bytes") else
